@@ -115,7 +115,7 @@ def main():
 
     work = os.path.join(ROOT, ".work", "%s-%d" % (prop, os.getpid()))
     os.makedirs(work, exist_ok=True)
-    newdir = os.path.join(ROOT, "replays", "new", prop)
+    newdir = os.path.join(os.environ.get("VERIF_NEW_REPLAYS", os.path.join(ROOT, "replays", "new")), prop)
     known_all = load_known()
     known = [k for k in known_all.get("findings", []) if k["property"] == prop]
 
@@ -226,8 +226,9 @@ def main():
             },
             "assumptions": assumptions,
         }
-        os.makedirs(os.path.join(ROOT, "evidence"), exist_ok=True)
-        with open(os.path.join(ROOT, "evidence", "%s.json" % prop), "w", encoding="utf8") as f:
+        evdir = os.environ.get("VERIF_EVIDENCE_DIR", os.path.join(ROOT, "evidence"))
+        os.makedirs(evdir, exist_ok=True)
+        with open(os.path.join(evdir, "%s.json" % prop), "w", encoding="utf8") as f:
             json.dump(ev, f, ensure_ascii=False, indent=1)
 
         # generator-drift warning
